@@ -536,6 +536,37 @@ pub proof fn lemma_subslice_copied(before: Seq<u8>, after: Seq<u8>, src: Seq<u8>
     }
 }
 
+/// a copy of n bits into the sub-slice `whole[a..]` (at its bit dp) seen on the whole destination
+pub proof fn lemma_subslice_copied_n(before: Seq<u8>, after: Seq<u8>, src: Seq<u8>, sp: int, a: int, dp: int, n: int)
+    requires
+        0 <= a <= before.len(), after.len() == before.len(), 0 <= dp, 0 <= n,
+        forall|k: int| 0 <= k < a ==> after[k] == before[k],
+        copied(before.subrange(a, before.len() as int), after.subrange(a, after.len() as int), src, sp, dp, n),
+    ensures copied(before, after, src, sp, 8 * a + dp, n)
+{
+    let len = before.len() as int;
+    let sb = before.subrange(a, len);
+    let sa = after.subrange(a, len);
+    assert forall|j: int| 0 <= j < len * 8 implies #[trigger] bit_at(after, j) ==
+        (if 8 * a + dp <= j < 8 * a + dp + n { bit_at(src, sp + (j - (8 * a + dp))) } else { bit_at(before, j) }) by {
+        if j >= 8 * a {
+            let i = j - 8 * a;
+            assert(bit_at(sa, i) == (if dp <= i < dp + n { bit_at(src, sp + (i - dp)) } else { bit_at(sb, i) }));
+            assert((8 * a + i) / 8 == a + i / 8 && (8 * a + i) % 8 == i % 8);
+            assert(sa[i / 8] == after[a + i / 8]);
+            assert(sb[i / 8] == before[a + i / 8]);
+        } else {
+            assert(j / 8 < a);
+        }
+    }
+}
+
+/// `buf` holds exactly the n bits [sp, sp+n) of src, left aligned, zero padded to whole octets
+pub open spec fn payload(buf: Seq<u8>, src: Seq<u8>, sp: int, n: int) -> bool {
+    &&& buf.len() == (n + 7) / 8
+    &&& forall|j: int| 0 <= j < buf.len() * 8 ==> #[trigger] bit_at(buf, j) == (if j < n { bit_at(src, sp + j) } else { false })
+}
+
 /// reading w bits into the tail of one zero byte yields the field value
 pub proof fn lemma_read_byte_field(rbytes: Seq<u8>, pos: int, w: nat, before: Seq<u8>, after: Seq<u8>)
     requires
